@@ -183,7 +183,11 @@ func (w *World) extraExec(c core.Cmd) bool {
 				cover = cover / ref.TileWidth * ref.TileWidth
 			}
 			g := w.orc.truth(in.store)
+			if int64(len(g.entries)) < cover {
+				w.sim.Probe("recompute.truth-short")
+			}
 			if int64(len(g.entries)) >= cover {
+				w.sim.Probe("recompute.model")
 				in.recomputed = map[[32]byte][][2]int64{}
 				in.recomputedEpoch = in.cacheEpoch
 				for i := int64(0); i < cover; i++ {
